@@ -1310,6 +1310,7 @@ func genC03(r *Rng, n int, tier string) {
 	repeatScenariosOut(r, 60*scale)
 	seqScenariosOut(r, 150*scale)
 	longScenariosOut(r)
+	hugeLineScenariosOut(r)
 }
 
 // ---------------------------------------------------------------------------------------------
@@ -1461,6 +1462,56 @@ func longScenariosOut(r *Rng) {
 		outEmitMsgs("d", &rwp.OutboundMessage{Connections: &rwp.Connections{Connection: []string{txt[:n/2], txt[n/2:]}}})
 		outEmitMsgs("c", &rwp.OutboundMessage{PanelTopology: &rwp.PanelTopology{Svgbase: svg, Json: js}})
 	}
+}
+
+// a payload of one physical line of exactly n bytes (n >= 40): JSON-like or SVG-like
+func oneLineJSON(n int) string {
+	head, tail := "{\"HWc\":[", "{}]}"
+	unit := "{\"id\":1,\"x\":10,\"y\":20,\"txt\":\"Button\"},"
+	body := strings.Repeat(unit, (n-len(head)-len(tail))/len(unit))
+	pad := n - len(head) - len(tail) - len(body)
+	return head + body + strings.Repeat(" ", pad) + tail
+}
+
+func oneLineSVG(n int) string {
+	head, tail := "<svg width=\"10\" height=\"10\">", "</svg>"
+	unit := "<rect x=\"1\" y=\"2\" width=\"3\"/>"
+	body := strings.Repeat(unit, (n-len(head)-len(tail))/len(unit))
+	pad := n - len(head) - len(tail) - len(body)
+	return head + body + strings.Repeat(" ", pad) + tail
+}
+
+// (g) payloads with ONE physical line at and beyond 64 KiB (an already minified topology / profile of a large panel, a
+// long message), alone and after a short first line, in every payload-carrying field of the outbound encoder
+func hugeLineScenariosOut(r *Rng) {
+	for _, n := range []int{65535, 65536, 70000} {
+		for shape := 0; shape < 2; shape++ {
+			js, svg, txt := oneLineJSON(n), oneLineSVG(n), strings.Repeat("abcdefghi ", n/10+1)[:n-1]+"z"
+			if shape == 1 {
+				js, svg, txt = "{\"a\": 1,\n \"b\":"+js+"\n}", "<!-- base -->\n"+svg+"\n", "first line\n"+txt+"\nlast"
+			}
+			outEmitMsgs("d", &rwp.OutboundMessage{PanelTopology: &rwp.PanelTopology{Svgbase: svg, Json: js}})
+			switch r.Intn(3) {
+			case 0:
+				outEmitMsgs("d", &rwp.OutboundMessage{BurninProfile: &rwp.BurninProfile{Json: js}})
+			case 1:
+				outEmitMsgs("d", &rwp.OutboundMessage{CalibrationProfile: &rwp.CalibrationProfile{Json: js}})
+			case 2:
+				outEmitMsgs("d", &rwp.OutboundMessage{DefaultCalibrationProfile: &rwp.CalibrationProfile{Json: js}})
+			}
+			if r.Bool() {
+				outEmitMsgs("d", &rwp.OutboundMessage{Message: &rwp.Message{Message: txt}})
+			} else {
+				outEmitMsgs("d", &rwp.OutboundMessage{ErrorMessage: &rwp.Message{Message: txt}})
+			}
+		}
+	}
+	// every payload field in one call, C binding, and one 300 000-byte line
+	js, txt := "[\n"+oneLineJSON(65536)+"\n]", "m\n"+strings.Repeat("y", 65536)
+	outEmitMsgs("d", &rwp.OutboundMessage{BurninProfile: &rwp.BurninProfile{Json: js}, CalibrationProfile: &rwp.CalibrationProfile{Json: js}},
+		&rwp.OutboundMessage{DefaultCalibrationProfile: &rwp.CalibrationProfile{Json: js}, Message: &rwp.Message{Message: txt}, ErrorMessage: &rwp.Message{Message: txt}})
+	outEmitMsgs("c", &rwp.OutboundMessage{BurninProfile: &rwp.BurninProfile{Json: js}})
+	outEmitMsgs("d", &rwp.OutboundMessage{BurninProfile: &rwp.BurninProfile{Json: "{\n" + oneLineJSON(300000) + "}"}})
 }
 
 // put a NUL byte into one string field of the message (C binding: C.CString truncation)
@@ -2100,6 +2151,40 @@ func genC04(r *Rng, n int, tier string) {
 	enumScenariosDout(r, 300*scale)
 	seqScenariosDout(r, 150*scale)
 	longScenariosDout()
+	jsonGluedScenariosDout(r, 60*scale)
+}
+
+// the JSON-carrying line of the outbound decoder (`_networkConfig=`): a complete valid JSON object followed / preceded
+// by something (stray bracket, comma, second value glued on, another line run together with it, blanks, BOM); the
+// oracle entry (encoding/json.Unmarshal) says what the unchanged code yields
+func jsonGluedScenariosDout(r *Rng, randomN int) {
+	fixed := []string{"{\"address\":\"10.0.0.9\",\"dhcp\":true}", "{}", "{\"netmask\":\"255.255.255.0\",\"gateway\":\"10.0.0.1\"}"}
+	for _, v := range fixed {
+		for _, t := range jsonTrailers {
+			outEmitLines("_networkConfig=" + v + t)
+			outEmitLines("HWC#1=Down", "_networkConfig="+v+t, "HWC#1=Up")
+		}
+		for _, l := range jsonLeaders {
+			outEmitLines("_networkConfig=" + l + v)
+		}
+		for _, w := range fixed {
+			outEmitLines("_networkConfig=" + v + w)
+		}
+	}
+	for i := 0; i < randomN; i++ {
+		j, _ := json.Marshal(randNet(r))
+		l := "_networkConfig=" + string(j)
+		switch r.Intn(3) {
+		case 0:
+			l += jsonTrailers[r.Intn(len(jsonTrailers))]
+		case 1:
+			j2, _ := json.Marshal(randNet(r))
+			l += string(j2)
+		case 2:
+			l += nonGrammarLine(r)
+		}
+		outEmitLines(l)
+	}
 }
 
 // ---------------------------------------------------------------------------------------------
